@@ -28,10 +28,10 @@ META = {
     "MaxIter 1..3 quick / 1..5 (+6 with 3 tolerances) thorough) and checks the invariant Rule (= the documented stopping rule and bookkeeping) on every reachable state; the dumped state "
     "graph is parsed and EVERY terminal state (= one complete behaviour, hist is a state variable so the graph is a tree) is replayed on the real Graph.optimize through a scripted unary edge "
     "(error [a_k, -1], J = I, k = round(y)) and compared field by field. (direct) graphs = shape-family slice + SLAM families + singular / diverging graphs x tol in {0,1e-12,1e-8,1e-4,1e-1} "
-    "x max_iter 1..8 x verbose: report vs the Gauss-Newton orbit obtained by single-step runs and vs the stop-rule prediction; (split) every composition k1+...+km = n, n<=6, with tol=0 "
+    "x max_iter 1..8 x verbose: report vs the Gauss-Newton orbit obtained by single-step runs and vs the stop-rule prediction; (edit) a converging first call, then an external change (pose re-bound / edited in place / fixed flag set), then the judged call vs the orbit of a fresh graph in the edited state; (split) every composition k1+...+km = n, n<=6, with tol=0 "
     "and with tol>0. non-trivial = behaviour with at least 2 chi2 values / run with at least one update",
     "assumptions": ["TLC 1.8.0 trusted; if tlc is missing the same transition relation (ref/stoprule.enumerate_model) is enumerated and evidence says tlc_used=false", "eps in the denominator and NaN chi2 are outside the TLA+ model; they are covered by the direct enumeration with IEEE semantics"],
-    "required_classes": ["model:early_stop", "model:limit_converged", "model:limit_not_converged", "model:chi2_increase", "model:equal_chi2", "direct:converged", "direct:limit", "direct:nan_chi2", "direct:verbose", "split:tol0", "split:tolpos", "stop_at_first_iteration_possible"],
+    "required_classes": ["edit:rebind", "edit:inplace", "edit:flag", "model:early_stop", "model:limit_converged", "model:limit_not_converged", "model:chi2_increase", "model:equal_chi2", "direct:converged", "direct:limit", "direct:nan_chi2", "direct:verbose", "split:tol0", "split:tolpos", "stop_at_first_iteration_possible"],
     "bounds": {"quick": "TLC MaxIter 1..3 x 7 tolerances (5425 behaviours); direct max_iter 1..6; splits n<=5", "thorough": "TLC MaxIter 1..5 x 7 tolerances + MaxIter 6 x 3 tolerances; direct max_iter 1..8 (small graphs 1..30); splits n<=6"},
 }
 
@@ -278,6 +278,7 @@ def chunks(tier, seed):
     for gi in range(len(gs)):
         out.append(("direct", gi, 0, 1))
         out.append(("split", gi, 0, 1))
+        out.append(("edit", gi, 0, 1))
     return out
 
 
@@ -342,6 +343,11 @@ def run_chunk(chunk, tier, seed):
             for mi in iters:
                 case = {"t": "direct", "graph": list(gd), "seed": seed, "tol": tol, "max_iter": mi}
                 _do(acc, case)
+    elif typ == "edit":
+        for tol in (1e-4, 1e-1, 0.0):
+            for k in (1, 2, 3):
+                for what in ("rebind", "inplace", "flag"):
+                    _do(acc, {"t": "edit", "graph": list(gd), "seed": seed, "tol": tol, "max_iter": k, "what": what})
     else:
         nmax = 5 if tier == "quick" else 6
         for n in range(2, nmax + 1):
@@ -390,6 +396,8 @@ def _eval(case, info=None):
         spec = direct_spec(gd, case["seed"])
         if t == "direct":
             return _eval_direct(case, spec, info)
+        if t == "edit":
+            return _eval_edit(case, spec, info)
         return _eval_split(case, spec, info)
     except Exception as ex:
         import traceback
@@ -470,4 +478,35 @@ def _eval_split(case, spec, info):
         if not _snap_equal(GB.snapshot(v1), GB.snapshot(verts)):
             msgs.append("split %r ends in different poses than a single optimize(max_iter=%d, tol=0)" % (parts, n))
     info.update(classes=["split:tol0" if tol == 0.0 else "split:tolpos"], calls=calls + n, compared=calls, updates=u, outcome="split calls=%d" % calls)
+    return msgs
+
+
+def _eval_edit(case, spec, info):
+    """history: a (possibly converging) first call, then the user changes the graph from outside (a pose re-bound, a pose edited
+    in place, a fixed flag toggled), then the judged call: its report must describe the NEW state's orbit (no stale linearisation)."""
+    msgs = []
+    tol, k = case["tol"], case["max_iter"]
+    g, verts, edges = GB.build(spec)
+    GB.optimize(g, tol=max(tol, 1e-6), max_iter=12, fix_first_pose=False)
+    free = [i for i, v in enumerate(verts) if not v.fixed]
+    if not free or not all(np.all(np.isfinite(np.asarray(v.pose))) for v in verts):
+        info.update(classes=["edit:skipped"], calls=1, compared=0, updates=0, outcome="edit skipped")
+        return msgs
+    j = free[-1]
+    if case["what"] == "rebind":
+        verts[j].pose = I.mk_pose(spec["vertices"][j]["kind"], spec["vertices"][j]["pose"])
+    elif case["what"] == "inplace":
+        np.asarray(verts[j].pose)[...] = I.comps(I.mk_pose(spec["vertices"][j]["kind"], spec["vertices"][j]["pose"]))
+    else:
+        verts[j].fixed = True
+    # fresh graph in exactly this state: its single-step orbit is the oracle
+    snap = GB.snapshot(verts)
+    spec2 = {"vertices": [dict(v, pose=list(sn[2]), fixed=bool(vv.fixed)) for v, sn, vv in zip(spec["vertices"], snap, verts)], "edges": spec["edges"]}
+    snaps, chis = orbit(spec2, k)
+    r = GB.optimize(g, tol=tol, max_iter=k, fix_first_pose=False)
+    what = "second call optimize(tol=%g, max_iter=%d) after an external %s of vertex #%d" % (tol, k, case["what"], j)
+    upd = check_report(r, chis, 0, tol, k, what, msgs)
+    if upd <= k and not _snap_equal(GB.snapshot(verts), snaps[upd]):
+        msgs.append("%s: returned poses are not the state %d Gauss-Newton updates after the edited state (stale state from the earlier call?)" % (what, upd))
+    info.update(classes=["edit:" + case["what"]], calls=2 + k, compared=1, updates=upd, outcome="edit conv=%s" % r.converged)
     return msgs
